@@ -18,6 +18,9 @@ import (
 	"github.com/ethereum/go-ethereum/common"
 	"github.com/ethereum/go-ethereum/core/types/goattypes"
 	goatcrypto "github.com/goatnetwork/goat/pkg/crypto"
+	sdkmath "cosmossdk.io/math"
+	authtypes "github.com/cosmos/cosmos-sdk/x/auth/types"
+	consensustypes "github.com/cosmos/cosmos-sdk/x/consensus/types"
 	goatmod "github.com/goatnetwork/goat/x/goat/types"
 	lockingtypes "github.com/goatnetwork/goat/x/locking/types"
 	relayertypes "github.com/goatnetwork/goat/x/relayer/types"
@@ -41,6 +44,7 @@ type appStream struct {
 	blocks  int
 	comet   *world.World // only its Comet field is used (real cmttypes.ValidatorSet fed with all updates)
 	strangers []*keys.Member
+	processed bool
 	started bool
 }
 
@@ -50,7 +54,7 @@ type bufLine struct {
 }
 
 func init() {
-	for _, p := range []string{"app", "app-guard", "app-engine"} {
+	for _, p := range []string{"app", "app-guard", "app-engine", "app-proposal", "app-det", "app-malformed"} {
 		p := p
 		streams[p] = func(seed uint64) Stream { return &appStream{worldStream: newWorldStream("goat-app-1"), profile: p} }
 	}
@@ -230,9 +234,12 @@ func (s *appStream) emitDumps() {
 // ---------------------------------------------------------------------------------- blocks
 
 type pendingTx struct {
-	op     *tr.Op
-	raw    []byte
-	signer string
+	op       *tr.Op
+	raw      []byte
+	signer   string
+	antePass bool
+	seq      uint64
+	priv     cryptotypes.PrivKey
 }
 
 // anteExpect mirrors nothing of the code under test: it is only used to pick account sequences for
@@ -241,7 +248,17 @@ func anteExpectPass(msgSigner, keyAddr, proposer string, decodes bool, memo stri
 	return decodes && msgSigner == proposer && keyAddr == msgSigner && memo == "" && (timeout == 0 || uint64(height) <= timeout) && sigok && seqok
 }
 
+var anteKeys = map[string]bool{"ante": true, "signer": true, "signerdecodes": true, "signers": true, "memo": true, "timeout": true, "height": true, "sigok": true, "seqok": true, "time": true}
+
 func (s *appStream) signRelayerTx(r *tr.Rng, o *tr.Op, height int64, seqUsed map[string]uint64) *pendingTx {
+	// a replayed operation carries the ante arguments of its first use: drop them
+	var kept [][2]string
+	for _, kv := range o.Args {
+		if !anteKeys[kv[0]] || (kv[0] == "time" && (o.Kind == "tx.accept" || o.Kind == "tx.newvoter")) {
+			kept = append(kept, kv)
+		}
+	}
+	o = &tr.Op{Cls: o.Cls, Kind: o.Kind, Args: kept}
 	v := s.rel.view()
 	prop := s.members[v.rel.Proposer]
 	var priv cryptotypes.PrivKey = prop.Acc
@@ -294,7 +311,8 @@ func (s *appStream) signRelayerTx(r *tr.Rng, o *tr.Op, height int64, seqUsed map
 	}
 	msgSigner := o.Str("proposer")
 	_, derr := sdk.AccAddressFromBech32(msgSigner)
-	if anteExpectPass(msgSigner, signerAddr, v.rel.Proposer, derr == nil, memo, timeout, height, sigok, seqok) {
+	pass := anteExpectPass(msgSigner, signerAddr, v.rel.Proposer, derr == nil, memo, timeout, height, sigok, seqok)
+	if pass {
 		seqUsed[signerAddr]++
 	}
 	o.Cls += cls
@@ -303,7 +321,7 @@ func (s *appStream) signRelayerTx(r *tr.Rng, o *tr.Op, height int64, seqUsed map
 	if !o.Has("time") {
 		o.Add("time", s.sim.NextTime().UnixNano())
 	}
-	return &pendingTx{op: o, raw: raw, signer: signerAddr}
+	return &pendingTx{op: o, raw: raw, signer: signerAddr, antePass: pass, seq: seq, priv: priv}
 }
 
 func reqArgsOf(o *tr.Op, bridge goattypes.BridgeRequests, relayer goattypes.RelayerRequests, locking goattypes.LockingRequests) {
@@ -464,6 +482,19 @@ func (s *appStream) genBlock(r *tr.Rng) {
 			ptxs = append(ptxs, p)
 		}
 	}
+	if s.profile == "app-guard" {
+		for n := 1 + r.Intn(2); n > 0; n-- {
+			if p := s.genericTx(r, height, seqUsed); p != nil {
+				ptxs = append(ptxs, p)
+			}
+		}
+		// mempool admission (CheckTx) of some of the block's transactions
+		for _, p := range ptxs {
+			if r.Chance(40) {
+				s.checkTx(p)
+			}
+		}
+	}
 
 	// ---- votes and evidence
 	var absent [][]byte
@@ -523,6 +554,9 @@ func (s *appStream) genBlock(r *tr.Rng) {
 		panic(err)
 	}
 	eb, _ := sim.DecodeEthBlockTx(txs[0])
+	if s.profile == "app-proposal" || r.Chance(10) {
+		s.genProcess(r, proposerIdx, txs[0], ptxs, eb.Payload)
+	}
 	// faults hit the two calls `Finalized` makes (DirectBuild does not consult faults)
 	if newStatus != "VALID" {
 		f := appsim.Fault{Method: appsim.MethodNewPayload, Status: newStatus}
@@ -540,8 +574,24 @@ func (s *appStream) genBlock(r *tr.Rng) {
 	}
 
 	proposer := sim.ProposerAddr(proposerIdx)
+	if s.processed {
+		// a rejected proposal cancels its in-flight newPayload RPC: let the engine finish recording it
+		time.Sleep(3 * time.Millisecond)
+		s.processed = false
+	}
+	sim.Engine.ResetCalls()
 	resp, ferr := sim.Finalize(proposer, txs, votes, evidence)
 	halt := ferr != nil
+	// what the engine was told while the block was finalised (C09)
+	var eng []string
+	for _, c := range sim.Engine.Calls() {
+		switch c.Method {
+		case appsim.MethodNewPayload:
+			eng = append(eng, fmt.Sprintf("np:%x", c.BlockHash[:]))
+		case appsim.MethodFCU:
+			eng = append(eng, fmt.Sprintf("fcu:%x/%x/%x", c.Head[:], c.Safe[:], c.Finalized[:]))
+		}
+	}
 
 	// ---- write the block as operations
 	s.emit(tr.NewOp("block", "a.blockstart", "height", height, "halt", tr.B(halt)), "ok")
@@ -597,7 +647,7 @@ func (s *appStream) genBlock(r *tr.Rng) {
 	}
 	end := tr.NewOp("end/new="+newStatus+"/fcu="+fcuStatus, "a.end", "height", height, "time", s.now, "newstatus", newStatus, "fcustatus", fcuStatus)
 	if halt {
-		s.emit(end, "halt ;; "+world.Classify(ferr))
+		s.emit(end, "halt eng="+tr.StrList(eng)+" ;; "+world.Classify(ferr))
 		sim.Engine.ClearFaults()
 		if err := sim.Restart(); err != nil {
 			panic(err)
@@ -608,7 +658,7 @@ func (s *appStream) genBlock(r *tr.Rng) {
 			ss = append(ss, fmt.Sprintf("%x|%d", u.PubKey.GetSecp256K1(), uint64(u.Power)))
 		}
 		sort.Strings(ss)
-		s.emit(end, "ok ups="+tr.StrList(ss)+" ;; comet="+s.comet.ApplyComet(resp.ValidatorUpdates))
+		s.emit(end, "ok ups="+tr.StrList(ss)+" eng="+tr.StrList(eng)+" ;; comet="+s.comet.ApplyComet(resp.ValidatorUpdates))
 		if err := sim.Commit(); err != nil {
 			panic(err)
 		}
@@ -624,4 +674,309 @@ func (s *appStream) genBlock(r *tr.Rng) {
 	_ = goatmod.ModuleName
 	_ = relayertypes.ModuleName
 	_ = common.Address{}
+}
+
+
+// ---------------------------------------------------------------------------------- proposals (C08)
+
+func payloadArgs(o *tr.Op, pl *goatmod.ExecutionPayload, tsfuture bool) {
+	if pl == nil {
+		o.Add("haspayload", "0")
+		return
+	}
+	o.Add("haspayload", "1").Add("parent", tr.Hex(pl.ParentHash)).Add("feerecip", tr.Hex(pl.FeeRecipient)).Add("number", pl.BlockNumber).
+		Add("hash", tr.Hex(pl.BlockHash)).Add("blob", pl.BlobGasUsed).Add("beacon", tr.Hex(pl.BeaconRoot)).Add("extra", tr.Hex(pl.ExtraData)).
+		Add("txs", world.SysTxListRaw(pl.Transactions)).Add("tsfuture", tr.B(tsfuture))
+	_, _, locking, derr := goattypes.DecodeRequests(pl.Requests)
+	if derr != nil {
+		o.Add("reqdecode", "err").Add("gas", "-")
+		return
+	}
+	var gas []string
+	for _, g := range locking.Gas {
+		gas = append(gas, g.Amount.String())
+	}
+	o.Add("reqdecode", "ok").Add("gas", tr.StrList(gas))
+}
+
+func clonePayload(p *goatmod.ExecutionPayload) *goatmod.ExecutionPayload {
+	c := *p
+	c.Transactions = append([][]byte{}, p.Transactions...)
+	c.Requests = append([][]byte{}, p.Requests...)
+	c.ExtraData = append([]byte{}, p.ExtraData...)
+	return &c
+}
+
+func flip(b []byte) []byte {
+	c := append([]byte{}, b...)
+	if len(c) > 0 {
+		c[len(c)-1] ^= 1
+	}
+	return c
+}
+
+// genProcess: ProcessProposal on the honest proposal (ante-valid transactions only, as the real
+// PrepareProposal selects them) and on single mutations of it.
+func (s *appStream) genProcess(r *tr.Rng, proposerIdx int, ethTx []byte, ptxs []*pendingTx, pl *goatmod.ExecutionPayload) {
+	sim := s.sim
+	s.processed = true
+	height := sim.Height + 1
+	val := sim.Validators[proposerIdx]
+	var rel [][]byte
+	for _, p := range ptxs {
+		if p.antePass {
+			rel = append(rel, p.raw)
+		}
+	}
+	run := func(cls string, comet []byte, txs [][]byte, kinds, anteok []string, pl *goatmod.ExecutionPayload, msgProposer []byte, newstatus string, tsfuture bool) {
+		sim.Engine.ClearFaults()
+		if newstatus != "VALID" {
+			f := appsim.Fault{Method: appsim.MethodNewPayload, Status: newstatus}
+			if newstatus == "ERROR" {
+				f = appsim.Fault{Method: appsim.MethodNewPayload, Err: fmt.Errorf("engine down")}
+			}
+			sim.Engine.InjectFault(f)
+		}
+		acc, err := sim.Process(comet, txs)
+		if !acc {
+			time.Sleep(2 * time.Millisecond) // a rejection cancels the in-flight newPayload RPC: let it land
+		}
+		sim.Engine.ClearFaults()
+		o := tr.NewOp("process/"+cls, "a.process", "height", height, "kinds", tr.StrList(kinds), "anteok", tr.StrList(anteok),
+			"proposer", tr.Hex(msgProposer), "comet", tr.Hex(comet), "newstatus", newstatus)
+		payloadArgs(o, pl, tsfuture)
+		res := "ok"
+		if err != nil {
+			res = "err ;; abci-error"
+		} else if !acc {
+			res = "err ;; " + world.Classify(fmt.Errorf("%s", sim.RejectReason()))
+		}
+		s.emit(o, res)
+	}
+	kindsOf := func(n int) ([]string, []string) {
+		k, a := []string{"eth"}, []string{"1"}
+		for i := 0; i < n; i++ {
+			k, a = append(k, "rel"), append(a, "1")
+		}
+		return k, a
+	}
+	honest := append([][]byte{ethTx}, rel...)
+	hk, ha := kindsOf(len(rel))
+	run("honest", val.ConsAddr, honest, hk, ha, pl, val.ConsAddr, "VALID", false)
+	resign := func(p *goatmod.ExecutionPayload, by appsim.ValKey) []byte {
+		raw, err := sim.BuildEthBlockTx(by, p, uint64(height), nil)
+		if err != nil {
+			panic(err)
+		}
+		return raw
+	}
+	for n := 0; n < 3; n++ {
+		m := clonePayload(pl)
+		cls, comet, msgProp, status, future := "", val.ConsAddr, []byte(val.ConsAddr), "VALID", false
+		txs, k, a := honest, hk, ha
+		mutatePayload := true
+		switch r.Intn(20) {
+		case 0:
+			cls, m.ParentHash = "wrong-parent", flip(m.ParentHash)
+		case 1:
+			cls, m.BlockNumber = "wrong-number", m.BlockNumber+1
+		case 2:
+			cls, m.BeaconRoot = "wrong-beacon-root", flip(m.BeaconRoot)
+		case 3:
+			if len(sim.Validators) > 1 {
+				cls, comet = "other-consensus-proposer", sim.Validators[(proposerIdx+1)%len(sim.Validators)].ConsAddr
+			}
+		case 4:
+			cls, m.FeeRecipient = "wrong-fee-recipient", flip(m.FeeRecipient)
+		case 5:
+			cls = "count-byte+1"
+			m.ExtraData[0]++
+		case 6:
+			if len(m.Transactions) > 0 {
+				cls, m.Transactions = "systx-dropped", m.Transactions[1:]
+				m.ExtraData[0]--
+			}
+		case 7:
+			if len(m.Transactions) > 1 {
+				cls = "systx-swapped"
+				m.Transactions[0], m.Transactions[1] = m.Transactions[1], m.Transactions[0]
+			}
+		case 8:
+			if len(m.Transactions) > 0 {
+				cls = "systx-byte-flipped"
+				m.Transactions[0] = flip(m.Transactions[0])
+			}
+		case 9:
+			b, rl, l, err := goattypes.DecodeRequests(m.Requests)
+			if err == nil {
+				cls = "no-gas-request"
+				l.Gas = nil
+				m.Requests = append(append(l.Encode(), b.Encode()...), rl.Encode()...)
+			}
+		case 10:
+			b, rl, l, err := goattypes.DecodeRequests(m.Requests)
+			if err == nil && len(l.Gas) == 1 {
+				cls = "two-gas-requests"
+				l.Gas = append(l.Gas, l.Gas[0])
+				m.Requests = append(append(l.Encode(), b.Encode()...), rl.Encode()...)
+			}
+		case 11:
+			cls, m.Requests = "garbage-requests", [][]byte{{0xfe, 1, 2, 3}}
+		case 12:
+			cls, future = "future-timestamp", true
+			m.Timestamp = uint64(time.Now().Unix()) + 3600
+		case 13:
+			if len(rel) > 0 {
+				cls, mutatePayload = "ethblock-not-first", false
+				txs = append([][]byte{rel[0], ethTx}, rel[1:]...)
+				k, a = append([]string{"rel", "eth"}, hk[2:]...), ha
+			}
+		case 14:
+			cls, mutatePayload = "duplicate-ethblock", false
+			txs = append([][]byte{ethTx, ethTx}, rel...)
+			k = append([]string{"eth", "eth"}, hk[1:]...)
+			a = append([]string{"1", "0"}, ha[1:]...) // the second copy carries a stale account sequence
+		case 15:
+			cls, mutatePayload, txs, k, a = "no-transactions", false, nil, nil, nil
+		case 16:
+			cls, mutatePayload = "too-many-transactions", false
+			txs, k, a = [][]byte{ethTx}, []string{"eth"}, []string{"1"}
+			for i := 0; i < 16; i++ {
+				txs, k, a = append(txs, ethTx), append(k, "eth"), append(a, "0")
+			}
+		case 17:
+			cls, status, mutatePayload = "engine-"+tr.Pick(r, "INVALID", "SYNCING", "ACCEPTED", "ERROR"), "", false
+			status = cls[len("engine-"):]
+		case 18:
+			if len(sim.Validators) > 1 {
+				other := sim.Validators[(proposerIdx+1)%len(sim.Validators)]
+				cls, mutatePayload = "signed-by-other-validator", false
+				// message proposer = the other validator, consensus proposer unchanged
+				txs = append([][]byte{resign(m, other)}, rel...)
+				msgProp = other.ConsAddr
+			}
+		case 19:
+			cls, m.BlobGasUsed = "blob-gas", 1
+		}
+		if cls == "" {
+			continue
+		}
+		if mutatePayload {
+			txs = append([][]byte{resign(m, val)}, rel...)
+		}
+		run(cls, comet, txs, k, a, m, msgProp, status, future)
+	}
+}
+
+
+// ---------------------------------------------------------------------------------- C10: foreign messages, CheckTx
+
+var msgNameOfKind = map[string]string{
+	"tx.hashes": "goat.bitcoin.v1.MsgNewBlockHashes", "tx.pubkey": "goat.bitcoin.v1.MsgNewPubkey", "tx.deposits": "goat.bitcoin.v1.MsgNewDeposits",
+	"tx.process": "goat.bitcoin.v1.MsgProcessWithdrawal", "tx.replace": "goat.bitcoin.v1.MsgReplaceWithdrawal", "tx.finalize": "goat.bitcoin.v1.MsgFinalizeWithdrawal",
+	"tx.approve": "goat.bitcoin.v1.MsgApproveCancellation", "tx.consolidate": "goat.bitcoin.v1.MsgNewConsolidation",
+	"tx.newvoter": "goat.relayer.v1.MsgNewVoterRequest", "tx.accept": "goat.relayer.v1.MsgAcceptProposerRequest",
+}
+
+// genericTx: transactions carrying message types registered in the application that are NOT
+// relayer/bridge messages (account and consensus-parameter administration), multi-message mixes and
+// multi-signer transactions.  None of them may ever pass the ante chain.
+func (s *appStream) genericTx(r *tr.Rng, height int64, seqUsed map[string]uint64) *pendingTx {
+	v := s.rel.view()
+	prop := s.members[v.rel.Proposer]
+	if prop == nil {
+		return nil
+	}
+	var priv cryptotypes.PrivKey = prop.Acc
+	signer := prop.Addr
+	if r.Chance(30) {
+		val := s.sim.Validators[r.Intn(len(s.sim.Validators))]
+		priv, signer = val.Priv, sdk.AccAddress(val.ConsAddr).String()
+	}
+	var msgs []sdk.Msg
+	var names []string
+	cls := "generic/"
+	authMsg := &authtypes.MsgUpdateParams{Authority: signer, Params: authtypes.DefaultParams()}
+	consMsg := &consensustypes.MsgUpdateParams{Authority: signer, Block: &cmtproto.BlockParams{MaxBytes: 1000, MaxGas: -1},
+		Evidence: &cmtproto.EvidenceParams{MaxAgeNumBlocks: 1, MaxAgeDuration: time.Second, MaxBytes: 100}, Validator: &cmtproto.ValidatorParams{PubKeyTypes: []string{"secp256k1"}}}
+	relMsg := &relayertypes.MsgAcceptProposerRequest{Proposer: signer, Epoch: v.rel.Epoch}
+	firstSigner := signer
+	switch r.Intn(6) {
+	case 0:
+		msgs, names, cls = []sdk.Msg{authMsg}, []string{"cosmos.auth.v1beta1.MsgUpdateParams"}, cls+"auth-update-params"
+	case 1:
+		msgs, names, cls = []sdk.Msg{consMsg}, []string{"cosmos.consensus.v1.MsgUpdateParams"}, cls+"consensus-update-params"
+	case 2:
+		msgs, names, cls = []sdk.Msg{relMsg, authMsg}, []string{"goat.relayer.v1.MsgAcceptProposerRequest", "cosmos.auth.v1beta1.MsgUpdateParams"}, cls+"relayer+auth"
+	case 3:
+		msgs, names, cls = []sdk.Msg{consMsg, relMsg}, []string{"cosmos.consensus.v1.MsgUpdateParams", "goat.relayer.v1.MsgAcceptProposerRequest"}, cls+"consensus+relayer"
+	case 4: // two different signers
+		other := s.strangers[0].Addr
+		msgs = []sdk.Msg{relMsg, &relayertypes.MsgAcceptProposerRequest{Proposer: other, Epoch: v.rel.Epoch}}
+		names, cls = []string{"goat.relayer.v1.MsgAcceptProposerRequest", "goat.relayer.v1.MsgAcceptProposerRequest"}, cls+"two-signers"
+	case 5: // the block message smuggled together with a relayer message
+		head, beacon, _ := s.sim.EthHead()
+		pl := &goatmod.ExecutionPayload{ParentHash: head.BlockHash, BlockNumber: head.BlockNumber + 1, FeeRecipient: make([]byte, 20), BeaconRoot: beacon,
+			BaseFeePerGas: sdkmath.NewInt(1), ExtraData: make([]byte, 33)}
+		msgs = []sdk.Msg{&goatmod.MsgNewEthBlock{Proposer: signer, Payload: pl}, relMsg}
+		names, cls = []string{"goat.goat.v1.MsgNewEthBlock", "goat.relayer.v1.MsgAcceptProposerRequest"}, cls+"ethblock+relayer"
+	}
+	nsigners := 1
+	if strings.HasSuffix(cls, "two-signers") {
+		nsigners = 2
+	}
+	addr := sdk.AccAddress(priv.PubKey().Address())
+	_, base, hasAcc := s.sim.Account(addr)
+	timeout := uint64(0)
+	if strings.HasSuffix(cls, "ethblock+relayer") || r.Chance(20) {
+		timeout = uint64(height)
+	}
+	if strings.HasSuffix(cls, "ethblock+relayer") {
+		// signed by a validator: the block message passes the guard, the relayer message must not
+		val := s.sim.Validators[r.Intn(len(s.sim.Validators))]
+		priv, signer = val.Priv, sdk.AccAddress(val.ConsAddr).String()
+		firstSigner = signer
+		msgs[0].(*goatmod.MsgNewEthBlock).Proposer = signer
+		msgs[1].(*relayertypes.MsgAcceptProposerRequest).Proposer = signer
+		addr = sdk.AccAddress(priv.PubKey().Address())
+		_, base, hasAcc = s.sim.Account(addr)
+	}
+	raw, err := s.sim.SignTx(priv, msgs, appsim.TxOpts{SeqOverride: appsim.U64(base + seqUsed[signer]), TimeoutHeight: timeout})
+	if err != nil {
+		return nil
+	}
+	o := tr.NewOp(cls, "tx.generic", "msgs", tr.StrList(names), "proposer", firstSigner, "ante", "finalize", "signer", signer, "signerdecodes", "1",
+		"signers", nsigners, "memo", 0, "timeout", timeout, "height", height, "sigok", tr.B(hasAcc), "seqok", "1")
+	return &pendingTx{op: o, raw: raw, signer: signer, seq: base + seqUsed[signer], priv: priv}
+}
+
+// checkTx: mempool admission of a transaction that is (also) part of the block
+func (s *appStream) checkTx(p *pendingTx) {
+	o := &tr.Op{Cls: "checktx/" + p.op.Cls, Kind: "a.checktx"}
+	names := p.op.Str("msgs")
+	if n, ok := msgNameOfKind[p.op.Kind]; ok {
+		names = n
+	}
+	o.Add("msgs", names)
+	for _, kv := range p.op.Args {
+		switch kv[0] {
+		case "proposer", "signer", "signerdecodes", "signers", "memo", "timeout", "sigok":
+			o.Add(kv[0], kv[1])
+		}
+	}
+	// CheckTx runs on the check state: height of the last committed block, sequence of that state
+	seqok := "1"
+	if p.priv != nil {
+		addr := sdk.AccAddress(p.priv.PubKey().Address())
+		if acc := s.sim.App.AccountKeeper.GetAccount(s.sim.CheckCtx(), addr); acc != nil && acc.GetSequence() != p.seq {
+			seqok = "0"
+		}
+	}
+	o.Add("ante", "check").Add("seqok", seqok).Add("height", s.sim.Height)
+	code, log := s.sim.CheckTx(p.raw)
+	res := "ok"
+	if code != 0 {
+		res = "err ;; " + world.Classify(fmt.Errorf("%s", log))
+	}
+	s.emit(o, res)
 }
